@@ -16,4 +16,4 @@ for id in "$@"; do
 done
 git -C /repo checkout -- . 
 git -C /repo status --short | head -3
-git -C /verif status --short replays | awk '$1=="??"{print $2}' | xargs -r rm -rf
+(cd /verif && git status --short replays | awk '$1=="??"{print $2}' | xargs -r rm -rf)
